@@ -477,3 +477,47 @@ Print Assumptions C14_never_out_of_fuel.
 Theorem C14_run_never_out_of_fuel : forall dl doc v, run_with dl doc v <> VFuel.
 Proof. exact run_never_out_of_fuel. Qed.
 Print Assumptions C14_run_never_out_of_fuel.
+
+(* ---------- round 5: numbers are compared exactly ---------- *)
+
+(* For integers n, m of any size and whatever the compiler's default draft, on the document
+   {properties: {k: {<keyword>: m}}} and the values {k: n}: no rounding - n violates maximum m iff
+   n > m, minimum m iff n < m, exclusiveMaximum m iff n >= m, exclusiveMinimum m iff n <= m,
+   const m and enum [m] iff n <> m, enum [m; m'] iff n is neither. *)
+Theorem C14_numeric_bounds_exact : forall dflt n m m',
+  let v := VMap [("k", VNum n)] in
+  run dflt (bound_doc "maximum" (VNum m)) v = (if (n <=? m)%Z then VOk else VViolation)
+  /\ run dflt (bound_doc "minimum" (VNum m)) v = (if (m <=? n)%Z then VOk else VViolation)
+  /\ run dflt (bound_doc "exclusiveMaximum" (VNum m)) v = (if (n <? m)%Z then VOk else VViolation)
+  /\ run dflt (bound_doc "exclusiveMinimum" (VNum m)) v = (if (m <? n)%Z then VOk else VViolation)
+  /\ run dflt (bound_doc "const" (VNum m)) v = (if (n =? m)%Z then VOk else VViolation)
+  /\ run dflt (bound_doc "enum" (VList [VNum m])) v = (if (n =? m)%Z then VOk else VViolation)
+  /\ (m <> m' ->
+      run dflt (bound_doc "enum" (VList [VNum m; VNum m'])) v = (if (n =? m)%Z || (n =? m')%Z then VOk else VViolation)).
+Proof. exact numeric_bounds_exact. Qed.
+Print Assumptions C14_numeric_bounds_exact.
+
+Theorem C14_multipleOf_exact : forall dflt n m, (0 < m)%Z ->
+  run dflt (bound_doc "multipleOf" (VNum m)) (VMap [("k", VNum n)])
+  = (if (n mod m =? 0)%Z then VOk else VViolation).
+Proof. exact multiple_of_exact. Qed.
+Print Assumptions C14_multipleOf_exact.
+
+(* beyond int64, long decimals, exponent spellings (numbers the harness prints by their spelling) *)
+Example C14_big_number_examples :
+  let k v := VMap [("k", v)] in
+  doc_verdict (bound_doc "maximum" (VFlt "18446744073709551615")) (k (VFlt "18446744073709551616")) = VViolation
+  /\ doc_verdict (bound_doc "maximum" (VFlt "18446744073709551615")) (k (VFlt "18446744073709551615")) = VOk
+  /\ doc_verdict (bound_doc "maximum" (VNum 9007199254740992)) (k (VNum 9007199254740993)) = VViolation
+  /\ doc_verdict (bound_doc "maximum" (VFlt "1000000000000000000000")) (k (VFlt "1000000000000000000001")) = VViolation
+  /\ doc_verdict (bound_doc "maximum" (VFlt "1000000000000000000000")) (k (VFlt "1.0e+21")) = VOk
+  /\ doc_verdict (bound_doc "maximum" (VFlt "0.1234567890123456789")) (k (VFlt "0.1234567890123456790")) = VViolation
+  /\ doc_verdict (bound_doc "maximum" (VFlt "0.1234567890123456789")) (k (VFlt "0.12345678901234567890")) = VOk
+  /\ doc_verdict (bound_doc "const" (VNum 1)) (k (VFlt "1.0")) = VOk
+  /\ doc_verdict (bound_doc "const" (VNum 1)) (k (VFlt "1.0000000000000000001")) = VViolation
+  /\ doc_verdict (bound_doc "type" (VStr "integer")) (k (VFlt "12300e-2")) = VOk
+  /\ doc_verdict (bound_doc "type" (VStr "integer")) (k (VFlt "123e-1")) = VViolation
+  /\ doc_verdict (bound_doc "multipleOf" (VFlt "0.01")) (k (VFlt "123456789012345678.915")) = VViolation
+  /\ doc_verdict (bound_doc "multipleOf" (VNum 3)) (k (VNum 9007199254740993)) = VOk.
+Proof. exact big_number_examples. Qed.
+Print Assumptions C14_big_number_examples.
